@@ -186,6 +186,8 @@ class Cfg:
         self.time_obs = False     # code logs `time`; states carry time-aware invariants
         self.anon = False         # code also sends events without any distinguishing parameter (equal by value)
         self.echo = False         # some guards use the event-free form and their text doubles as entry/exit code of a state
+        self.sentconds = False    # a third of the contract conditions also log sent('na'), sent('ea'), received('ea')
+        self.brace = False        # some guard texts contain braces (they end up in error messages and exports)
         self.force_history = False
         self.pair_bias = 0        # out of 8: probability that a new transition copies source/event of an earlier one
         self.root_orthogonal = True
@@ -357,6 +359,9 @@ def legal_transition(sp, s, t):
     return True
 
 
+EXT = 5000      # contract conditions with an id >= EXT use the extended form (sent / received predicates)
+
+
 def decorate(sp, st, cfg, events):
     """sends / notify / context updates / contracts / time-aware guards"""
     delays = [None, None, 0, 1, 2, 2, 5] if cfg.delays else [None]
@@ -402,6 +407,10 @@ def decorate(sp, st, cfg, events):
                 s = sp.states[st.pick(sorted(sp.states))]
                 if s.echo is None:
                     s.echo = (st.pick(['entry', 'exit']), t.i)
+    if cfg.brace:
+        for t in sp.trans:
+            if t.guard and not t.gform and t.tg_after is None and t.tg_idle is None and st.flag(1, 2):
+                t.gform = 'brace'
     if cfg.time_obs:
         for s in sp.states.values():
             s.tobs = True
@@ -414,7 +423,7 @@ def decorate(sp, st, cfg, events):
         def conds(k):
             out = []
             for _ in range(st.weighted([(0, 4), (1, 3), (2, 2), (3, 1)])):
-                out.append(sp.nconds)
+                out.append(sp.nconds + (EXT if cfg.sentconds and st.flag(1, 3) else 0))
                 sp.nconds += 1
             return out
         for s in sp.states.values():
@@ -482,6 +491,8 @@ def action_code(t):
 def guard_code(t):
     if not t.guard:
         return None
+    if t.gform == 'brace':
+        return 'P.guard(%d, event) in {True}' % t.i
     if t.gform:
         return 'P.g(%d)' % t.i
     if t.tg_after is not None or t.tg_idle is not None:
@@ -503,6 +514,8 @@ def cond_code(j, kind, owner_is_transition, with_old):
     if old == '__old__' and j % 3 == 1:
         old = '(lambda: __old__)()'      # a reference from a nested scope is a reference too
     ev = 'event' if owner_is_transition else 'None'
+    if j >= EXT:
+        return "P.cond(%d, v, %s, %s, sent('na'), sent('ea'), received('ea'))" % (j, old, ev)
     return 'P.cond(%d, v, %s, %s)' % (j, old, ev)
 
 
